@@ -6,3 +6,4 @@ open Biogo.Properties.C11
 #print axioms spec_cycle_sorted_perm
 #print axioms run_rejects
 #print axioms history_rejected_push_noop
+#print axioms abandoned_cycle_fresh
